@@ -1,6 +1,13 @@
 (** C19 — Control server lifecycle (the lifecycle logic on top of asyncio's stream-server
     contract; kernel sockets, the selector loop and time are exercised by the correspondence over
-    real sockets, not proved).  PARTIAL in that sense.  Property theorems only. *)
+    real sockets, not proved).  PARTIAL in that sense.  Property theorems only.
+
+    The model knows runs: every serve_forever() that takes effect starts a new one; a run started
+    while the previous, cancelled task still waits for its lingering clients overlaps with it
+    (ghost flag [v_overlap]).  Theorems that speak about the socket file of a Unix server or about
+    new connections being accepted carry the hypothesis [v_overlap s = false] where they need it;
+    what an overlap does to a Unix server is shown by C19_unix_overlap_loses_socket, and that it
+    is harmless over TCP by C19_tcp_overlap_harmless. *)
 From TP Require Import SModel SProofs.
 From TP Require SStop.
 
@@ -12,29 +19,32 @@ Theorem C19_serving_until_stop : forall k tr,
 Proof. intros k tr s. exact (inv_serving _ (Inv_run k tr)). Qed.
 
 (** While it serves, every client is served: a connection attempt is accepted with the handshake
-    reply, and a command line is answered with exactly one reply — to that client only. *)
+    reply (no run having overlapped with another - see C19_unix_overlap_loses_socket), the new
+    connection belonging to the latest run; and a command line is answered with exactly one
+    reply — to that client only, whichever run accepted it. *)
 Theorem C19_clients_served : forall k tr,
   let s := run k tr in
   v_started s = true -> v_stopreq s = false ->
-  v_conns (step s LConnect) = v_conns s ++ [{| k_client_open := true; k_session := true;
-                                               k_replies := 1; k_hello := true; k_waiting := false |}] /\
+  (v_overlap s = false ->
+   v_conns (step s LConnect) = v_conns s ++ [new_conn s true true 1 true]) /\
   forall c x, nth_error (v_conns s) c = Some x -> k_client_open x = true -> k_session x = true ->
     k_hello x = true -> k_waiting x = false ->
     nth_error (v_conns (step s (LSend c))) c
     = Some {| k_client_open := true; k_session := true; k_replies := S (k_replies x);
-              k_hello := true; k_waiting := false |} /\
+              k_hello := true; k_waiting := false; k_gen := k_gen x |} /\
     forall c', c' <> c -> nth_error (v_conns (step s (LSend c))) c' = nth_error (v_conns s) c'.
 Proof.
-  intros k tr s Hst Hns.
-  destruct (inv_serving _ (Inv_run k tr) Hst Hns) as [Hl Hd]. fold s in Hl, Hd.
+  intros k tr s Hst Hns. pose proof (Inv_run k tr) as I. fold s in I.
+  destruct (inv_serving _ I Hst Hns) as [Hl Hd].
   split.
-  - cbn [step]. rewrite Hl. reflexivity.
+  - intros Ho. cbn [step].
+    assert (Ha : accepting s = true).
+    { unfold accepting, is_unix. rewrite Hl. cbn [andb]. destruct (v_kind s) eqn:Hk.
+      - reflexivity.
+      - rewrite (inv_sock_there _ I Ho Hk Hst Hd). reflexivity. }
+    rewrite Ha. reflexivity.
   - intros c x Hx Ho Hse Hh Hw. cbn [step]. rewrite Hx, Ho, Hse, Hh, Hw. cbn [andb negb].
-    destruct (settle_fields (set_conns s (upd (v_conns s) c
-                {| k_client_open := true; k_session := v_listening s;
-                   k_replies := S (k_replies x); k_hello := true; k_waiting := false |})))
-      as [_ [_ [Hc _]]].
-    rewrite Hc. unfold set_conns. cbn [v_conns]. split.
+    unfold answer. rewrite settle_conns. unfold set_conns. cbn [v_conns]. split.
     + rewrite nth_error_upd, Nat.eqb_refl, Hl.
       assert (Hlt : c < length (v_conns s)) by (apply nth_error_Some; congruence).
       apply Nat.ltb_lt in Hlt. rewrite Hlt. reflexivity.
@@ -52,34 +62,49 @@ Proof.
   intros k tr c s. cbn [step].
   destruct (nth_error (v_conns s) c) as [x|] eqn:Hx; [|split; auto].
   destruct (k_client_open x); [|split; auto].
-  set (s' := set_conns s _).
-  destruct (settle_fields s') as [_ [_ [Hc _]]]. split.
-  - intros c' Hne. rewrite Hc. unfold s', set_conns. cbn [v_conns]. rewrite nth_error_upd.
-    destruct (Nat.eqb_spec c c'); [congruence|reflexivity].
-  - intros Hns. unfold settle. replace (v_stopreq s') with false by (symmetry; exact Hns).
-    cbn [andb]. auto.
+  set (s' := set_conns s _). split.
+  - intros c' Hne. rewrite settle_conns. unfold s', set_conns. cbn [v_conns].
+    rewrite nth_error_upd. destruct (Nat.eqb_spec c c'); [congruence|reflexivity].
+  - intros Hns. unfold settle. rewrite settle_cur_nostop by exact Hns.
+    split; reflexivity.
 Qed.
 
 (** After the serving task was cancelled: the address accepts no connection, is_serving() is
-    false, and the task completes exactly when every connected client has gone (disconnected, or
-    sent one more line, after which its session ends) — not earlier. *)
+    false, and the task completes exactly when every client that connected during this run has
+    gone (disconnected, or sent one more line, after which its session ends) — not earlier.
+    (Clients of an earlier run that is still draining do not hold this task back: each task waits
+    for its own run's connections.) *)
 Theorem C19_stop : forall k tr,
   let s := run k tr in
   v_stopreq s = true ->
   v_listening s = false /\
-  (v_done s = true <-> all_sessions_ended (v_conns s) = true) /\
+  (v_done s = true <-> run_ended (v_gen s) (v_conns s) = true) /\
   v_conns (step s LConnect) = v_conns s /\ v_refused (step s LConnect) = S (v_refused s).
 Proof.
   intros k tr s Hs. pose proof (Inv_run k tr) as I. fold s in I.
   destruct (inv_stopped _ I Hs) as [Hl _]. split; [exact Hl|].
   split; [exact (inv_done_iff _ I Hs)|].
-  cbn [step]. rewrite Hl. cbn. auto.
+  cbn [step]. unfold accepting. rewrite Hl. cbn. auto.
+Qed.
+
+(** ... which, no run having overlapped with another, are all the clients there are. *)
+Theorem C19_stop_no_overlap : forall k tr,
+  let s := run k tr in
+  v_stopreq s = true -> v_overlap s = false ->
+  v_listening s = false /\
+  (v_done s = true <-> all_sessions_ended (v_conns s) = true) /\
+  v_conns (step s LConnect) = v_conns s /\ v_refused (step s LConnect) = S (v_refused s).
+Proof.
+  intros k tr s Hs Ho. pose proof (Inv_run k tr) as I. fold s in I.
+  destruct (C19_stop k tr Hs) as (H1 & H2 & H3). fold s in H1, H2, H3.
+  rewrite (no_overlap_run_ended s I Ho) in H2. auto.
 Qed.
 
 (** ... and it does complete: after the serving task was cancelled, as soon as every connected
     client has disconnected (in any order, other labels of clients that are gone being no-ops) - PROVIDED no session is
     inside a waiting command -
-    the task is done, the address stays closed and a Unix server's socket file is gone. *)
+    the task is done, the address stays closed and a Unix server's socket file is gone.  With or
+    without overlapping runs. *)
 Theorem C19_stop_completes : forall k tr cs,
   let s := run k tr in
   v_stopreq s = true -> SStop.nobody_waits s ->
@@ -103,45 +128,103 @@ Proof.
   exists [LStart; LConnect; LSendWait 0; LLeave 0; LStop]. vm_compute. repeat split; reflexivity.
 Qed.
 
+(** no client is connected, and no session is stuck inside a waiting command (the pool is closed,
+    or nobody waits): then no session is left *)
+Lemma clients_gone_sessions_over : forall s,
+  Inv s ->
+  (forall c x, nth_error (v_conns s) c = Some x -> k_client_open x = false) ->
+  (v_pool_closed s = true \/ SStop.nobody_waits s) ->
+  all_sessions_ended (v_conns s) = true.
+Proof.
+  intros s I Hgone Hnw. unfold all_sessions_ended. apply forallb_forall. intros x Hx.
+  apply In_nth_error in Hx. destruct Hx as [c Hc].
+  destruct (k_session x) eqn:Hs; [|reflexivity]. exfalso.
+  assert (Hw : k_waiting x = false).
+  { destruct Hnw as [Hpc|N]; [exact (inv_closed_nowait _ I Hpc c x Hc)|exact (N c x Hc)]. }
+  pose proof (inv_session_client _ I c x Hc Hs Hw) as Ho.
+  rewrite (Hgone c x Hc) in Ho. discriminate.
+Qed.
+
+(** What the waiting sessions wait for is the pool's closing.  Once the pool is closed, a stop
+    requested with every client gone has completed - whatever was waiting before: the task is
+    done, the address closed, the socket file gone, and no earlier run is left draining. *)
+Theorem C19_stop_completes_when_pool_closed : forall k tr,
+  let s := run k tr in
+  v_stopreq s = true ->
+  (forall c x, nth_error (v_conns s) c = Some x -> k_client_open x = false) ->
+  v_pool_closed s = true ->
+  v_done s = true /\ v_listening s = false /\ v_sockfile s = false /\ v_drain s = [].
+Proof.
+  intros k tr s Hs Hgone Hpc. pose proof (Inv_run k tr) as I. fold s in I.
+  pose proof (clients_gone_sessions_over s I Hgone (or_introl Hpc)) as E.
+  destruct (all_ended_no_drain s I E) as [Hdr Hd]. specialize (Hd Hs).
+  split; [exact Hd|]. split; [exact (proj1 (inv_stopped _ I Hs))|].
+  split; [exact (inv_sock_gone _ I Hd)|exact Hdr].
+Qed.
+
+(** Every run completes - the earlier ones too, and also without a stop of the latest: when no
+    client is connected and no session is stuck inside a waiting command, no earlier run is left
+    draining, and the latest task, if cancelled, is done. *)
+Theorem C19_every_run_completes : forall k tr,
+  let s := run k tr in
+  (forall c x, nth_error (v_conns s) c = Some x -> k_client_open x = false) ->
+  (v_pool_closed s = true \/ SStop.nobody_waits s) ->
+  v_drain s = [] /\ (v_stopreq s = true -> v_done s = true).
+Proof.
+  intros k tr s Hgone Hnw. pose proof (Inv_run k tr) as I. fold s in I.
+  exact (all_ended_no_drain s I (clients_gone_sessions_over s I Hgone Hnw)).
+Qed.
+
+(** The witness of C19_stop_waits_for_waiting_session, continued: closing the pool lets the stuck
+    session return, find its client gone and end; the stop then completes. *)
+Example C19_close_frees_the_stop :
+  let s := run TCP [LStart; LConnect; LSendWait 0; LLeave 0; LStop] in
+  v_done s = false /\ v_done (step s LClosePool) = true.
+Proof. vm_compute. split; reflexivity. Qed.
+
+(** Closing the pool releases exactly the waiting commands: the pool is closed; no connection
+    appears or disappears; a session that was not waiting is untouched; a waiting one whose client
+    is still there gets its one reply and goes on iff the (latest run of the) server serves; a
+    waiting one whose client has gone ends, without a reply. *)
+Theorem C19_close_pool_releases : forall k tr,
+  let s := run k tr in
+  let s' := step s LClosePool in
+  v_pool_closed s' = true /\
+  length (v_conns s') = length (v_conns s) /\
+  forall c x, nth_error (v_conns s) c = Some x ->
+    (k_waiting x = false -> nth_error (v_conns s') c = Some x) /\
+    (k_waiting x = true -> k_client_open x = true ->
+     nth_error (v_conns s') c
+     = Some {| k_client_open := true; k_session := v_listening s; k_replies := S (k_replies x);
+               k_hello := k_hello x; k_waiting := false; k_gen := k_gen x |}) /\
+    (k_waiting x = true -> k_client_open x = false ->
+     nth_error (v_conns s') c
+     = Some {| k_client_open := false; k_session := false; k_replies := k_replies x;
+               k_hello := k_hello x; k_waiting := false; k_gen := k_gen x |}).
+Proof.
+  intros k tr s s'. unfold s'. cbn [step].
+  match goal with |- context [settle ?z] =>
+    destruct (settle_fields z) as (_ & _ & Hc & _ & _ & _ & _ & Hp) end.
+  rewrite Hc, Hp. cbn [v_conns v_pool_closed].
+  split; [reflexivity|]. split; [apply map_length|].
+  intros c x Hx. rewrite nth_error_map, Hx. cbn [option_map].
+  split; [|split].
+  - intros Hw. rewrite Hw. reflexivity.
+  - intros Hw Ho. rewrite Hw, Ho. reflexivity.
+  - intros Hw Ho. rewrite Hw, Ho. reflexivity.
+Qed.
+
 (** Once the task has completed a Unix server's socket file is gone; while it has not, the file
-    is there. *)
+    is there - no run having overlapped with another (otherwise see
+    C19_unix_overlap_loses_socket). *)
 Theorem C19_socket_file : forall tr,
   let s := run Unix tr in
   (v_done s = true -> v_sockfile s = false) /\
-  (v_started s = true -> v_done s = false -> v_sockfile s = true).
+  (v_overlap s = false -> v_started s = true -> v_done s = false -> v_sockfile s = true).
 Proof.
   intros tr s. pose proof (Inv_run Unix tr) as I. fold s in I. split.
   - exact (inv_sock_gone _ I).
-  - apply (inv_sock_there _ I).
-    assert (H : forall t u, v_kind (fold_left step t u) = v_kind u).
-    { induction t as [|l t IH]; intros u; cbn [fold_left]; [reflexivity|]. rewrite IH.
-      destruct l as [| | | |c|c|c|c|c|]; cbn [step].
-      - destruct (v_started u && negb (v_done u)); reflexivity.
-      - destruct (v_listening u); reflexivity.
-      - destruct (v_listening u); reflexivity.
-      - destruct (v_listening u); reflexivity.
-      - destruct (nth_error (v_conns u) c) as [x|]; [|reflexivity].
-        destruct (k_client_open x && k_session x && negb (k_hello x)); [|reflexivity].
-        match goal with |- v_kind (settle ?z) = _ => destruct (settle_fields z) as [Hk _] end.
-        exact Hk.
-      - destruct (nth_error (v_conns u) c) as [x|]; [|reflexivity].
-        destruct (k_client_open x && k_session x && k_hello x && negb (k_waiting x)); [|reflexivity].
-        match goal with |- v_kind (settle ?z) = _ => destruct (settle_fields z) as [Hk _] end.
-        exact Hk.
-      - destruct (nth_error (v_conns u) c) as [x|]; [|reflexivity].
-        destruct (k_client_open x && k_session x && k_hello x && negb (k_waiting x)); reflexivity.
-      - destruct (nth_error (v_conns u) c) as [x|]; [|reflexivity].
-        destruct (k_client_open x); [|reflexivity].
-        match goal with |- v_kind (settle ?z) = _ => destruct (settle_fields z) as [Hk _] end.
-        exact Hk.
-      - destruct (nth_error (v_conns u) c) as [x|]; [|reflexivity].
-        destruct (k_client_open x); [|reflexivity].
-        match goal with |- v_kind (settle ?z) = _ => destruct (settle_fields z) as [Hk _] end.
-        exact Hk.
-      - destruct (v_started u && negb (v_stopreq u)); [|reflexivity].
-        match goal with |- v_kind (settle ?z) = _ => destruct (settle_fields z) as [Hk _] end.
-        exact Hk. }
-    unfold s, run. rewrite H. reflexivity.
+  - intros Ho. apply (inv_sock_there _ I Ho). apply run_kind.
 Qed.
 
 (** Non-vacuity: two clients, the stop arrives while both are connected; the task completes only
@@ -156,72 +239,45 @@ Proof. vm_compute. reflexivity. Qed.
 (** Sessions are independent while a handshake is pending: a client that has connected but not
     yet sent its handshake line holds a waiting session; whatever that client does or does not do,
     every other connection's record is untouched by its handshake, and the handshake itself is
-    answered with exactly one reply (after which the session lives iff the server still serves). *)
+    answered with exactly one reply (after which the session lives iff the latest run of the
+    server still serves); meanwhile other clients are accepted - as long as connection attempts
+    reach the server at all ([accepting]: it listens and, Unix, its socket file is in place). *)
 Theorem C19_pending_handshake_is_local : forall k tr c x,
   let s := run k tr in
   nth_error (v_conns s) c = Some x -> k_client_open x = true -> k_session x = true ->
   k_hello x = false ->
   nth_error (v_conns (step s (LHello c))) c
   = Some {| k_client_open := true; k_session := v_listening s; k_replies := S (k_replies x);
-            k_hello := true; k_waiting := false |} /\
+            k_hello := true; k_waiting := false; k_gen := k_gen x |} /\
   (forall c', c' <> c -> nth_error (v_conns (step s (LHello c))) c' = nth_error (v_conns s) c') /\
-  (v_listening s = true ->
-   v_conns (step s LOpen) = v_conns s ++ [{| k_client_open := true; k_session := true;
-                                             k_replies := 0; k_hello := false; k_waiting := false |}] /\
-   v_conns (step s LConnect) = v_conns s ++ [{| k_client_open := true; k_session := true;
-                                                k_replies := 1; k_hello := true; k_waiting := false |}]).
+  (accepting s = true ->
+   v_conns (step s LOpen) = v_conns s ++ [new_conn s true true 0 false] /\
+   v_conns (step s LConnect) = v_conns s ++ [new_conn s true true 1 true]).
 Proof.
   intros k tr c x s Hx Ho Hse Hh. cbn [step]. rewrite Hx, Ho, Hse, Hh. cbn [andb negb].
-  match goal with |- context [settle ?z] => destruct (settle_fields z) as [_ [_ [Hc _]]] end.
-  rewrite Hc. unfold set_conns. cbn [v_conns]. split; [|split].
+  unfold answer. rewrite settle_conns. unfold set_conns. cbn [v_conns]. split; [|split].
   - rewrite nth_error_upd, Nat.eqb_refl.
     assert (Hlt : c < length (v_conns s)) by (apply nth_error_Some; congruence).
     apply Nat.ltb_lt in Hlt. rewrite Hlt. reflexivity.
   - intros c' Hne. rewrite nth_error_upd.
     destruct (Nat.eqb_spec c c'); [congruence|reflexivity].
-  - intros Hl. rewrite Hl. split; reflexivity.
+  - intros Ha. rewrite Ha. split; reflexivity.
 Qed.
 
 (** Restart: once the serving task has completed, serve_forever() on the same server object serves
-    again (same address, a Unix server's socket file is back) and can be stopped again. *)
+    again (same address, a Unix server's socket file is back) and can be stopped again.  It is a
+    new run, which overlaps with nothing (unless an earlier one did, and is still draining). *)
 Theorem C19_restart : forall k tr,
   let s := run k tr in
   v_done s = true ->
   let s' := step s LStart in
   v_listening s' = true /\ v_done s' = false /\ v_stopreq s' = false /\ v_conns s' = v_conns s /\
-  (k = Unix -> v_sockfile s' = true).
+  (k = Unix -> v_sockfile s' = true) /\
+  v_gen s' = S (v_gen s) /\ v_drain s' = v_drain s /\ v_overlap s' = v_overlap s.
 Proof.
   intros k tr s Hd s'. unfold s'. cbn [step]. rewrite Hd. rewrite andb_false_r. cbn.
-  repeat split; auto. intros ->.
-  assert (H : forall t u, v_kind (fold_left step t u) = v_kind u).
-  { induction t as [|l t IH]; intros u; cbn [fold_left]; [reflexivity|]. rewrite IH.
-    destruct l as [| | | |c|c|c|c|c|]; cbn [step].
-    - destruct (v_started u && negb (v_done u)); reflexivity.
-    - destruct (v_listening u); reflexivity.
-    - destruct (v_listening u); reflexivity.
-    - destruct (v_listening u); reflexivity.
-    - destruct (nth_error (v_conns u) c) as [x|]; [|reflexivity].
-      destruct (k_client_open x && k_session x && negb (k_hello x)); [|reflexivity].
-      match goal with |- v_kind (settle ?z) = _ => destruct (settle_fields z) as [Hk _] end.
-      exact Hk.
-    - destruct (nth_error (v_conns u) c) as [x|]; [|reflexivity].
-      destruct (k_client_open x && k_session x && k_hello x && negb (k_waiting x)); [|reflexivity].
-      match goal with |- v_kind (settle ?z) = _ => destruct (settle_fields z) as [Hk _] end.
-      exact Hk.
-    - destruct (nth_error (v_conns u) c) as [x|]; [|reflexivity].
-      destruct (k_client_open x && k_session x && k_hello x && negb (k_waiting x)); reflexivity.
-    - destruct (nth_error (v_conns u) c) as [x|]; [|reflexivity].
-      destruct (k_client_open x); [|reflexivity].
-      match goal with |- v_kind (settle ?z) = _ => destruct (settle_fields z) as [Hk _] end.
-      exact Hk.
-    - destruct (nth_error (v_conns u) c) as [x|]; [|reflexivity].
-      destruct (k_client_open x); [|reflexivity].
-      match goal with |- v_kind (settle ?z) = _ => destruct (settle_fields z) as [Hk _] end.
-      exact Hk.
-    - destruct (v_started u && negb (v_stopreq u)); [|reflexivity].
-      match goal with |- v_kind (settle ?z) = _ => destruct (settle_fields z) as [Hk _] end.
-      exact Hk. }
-  unfold s, run. rewrite H. reflexivity.
+  rewrite orb_false_r. repeat split; auto. intros ->.
+  unfold is_unix, s. rewrite run_kind. reflexivity.
 Qed.
 
 Example C19_restart_example :
@@ -232,19 +288,90 @@ Example C19_restart_example :
      (false, true, false)].
 Proof. vm_compute. reflexivity. Qed.
 
-Print Assumptions C19_serving_until_stop.
-Print Assumptions C19_clients_served.
-Print Assumptions C19_disconnect_is_local.
-Print Assumptions C19_stop.
-Print Assumptions C19_socket_file.
-Print Assumptions C19_restart.
-Print Assumptions C19_pending_handshake_is_local.
+(** Overlapping restart: serve_forever() again while the cancelled task still waits for its
+    lingering clients.  A new run starts beside the old one, which goes on draining; the server
+    listens again; and the lingering clients of the earlier run keep being served - their sessions
+    ask is_serving(), which now speaks about the new run. *)
+Theorem C19_overlapping_restart : forall k tr,
+  let s := run k tr in
+  v_stopreq s = true -> v_done s = false ->
+  let s' := step s LStart in
+  v_listening s' = true /\ v_done s' = false /\ v_stopreq s' = false /\ v_conns s' = v_conns s /\
+  v_drain s' = v_drain s ++ [v_gen s] /\ v_gen s' = S (v_gen s) /\ v_overlap s' = true /\
+  (forall c x, nth_error (v_conns s) c = Some x -> k_client_open x = true -> k_session x = true ->
+     k_hello x = true -> k_waiting x = false ->
+     nth_error (v_conns (step s' (LSend c))) c
+     = Some {| k_client_open := true; k_session := true; k_replies := S (k_replies x);
+               k_hello := true; k_waiting := false; k_gen := k_gen x |}).
+Proof.
+  intros k tr s Hs Hd s'. pose proof (Inv_run k tr) as I. fold s in I.
+  destruct (inv_stopped _ I Hs) as [_ Hst].
+  assert (E : s' = start_run s true).
+  { unfold s'. cbn [step]. rewrite Hst, Hd, Hs. reflexivity. }
+  rewrite E. cbn [start_run v_listening v_done v_stopreq v_conns v_drain v_gen v_overlap].
+  rewrite orb_true_r. repeat split.
+  intros c x Hx Ho Hse Hh Hw. cbn [step start_run v_conns]. rewrite Hx, Ho, Hse, Hh, Hw.
+  cbn [andb negb]. unfold answer. rewrite settle_conns. unfold set_conns.
+  cbn [v_conns v_listening].
+  rewrite nth_error_upd, Nat.eqb_refl.
+  assert (Hlt : c < length (v_conns s)) by (apply nth_error_Some; congruence).
+  apply Nat.ltb_lt in Hlt.
+  change (v_conns (start_run s true)) with (v_conns s).
+  change (v_listening (start_run s true)) with true.
+  rewrite Hlt. reflexivity.
+Qed.
+
+(** Over TCP an overlap is harmless: connection attempts succeed exactly while is_serving() is
+    true, no serving task ever ends with an exception, and there is no socket file to lose. *)
+Theorem C19_tcp_overlap_harmless : forall tr,
+  let s := run TCP tr in
+  accepting s = v_listening s /\ v_raised s = false /\ v_sockfile s = false.
+Proof.
+  intros tr s. pose proof (Inv_run TCP tr) as I. fold s in I.
+  assert (Hk : v_kind s = TCP) by apply run_kind.
+  split; [|split].
+  - unfold accepting, is_unix. rewrite Hk. cbn. apply andb_true_r.
+  - destruct (v_raised s) eqn:E; [|reflexivity].
+    destruct (inv_raised _ I E) as [H _]. congruence.
+  - exact (inv_sock_tcp _ I Hk).
+Qed.
+
+(** Over a Unix socket it is not (finding): every run's final callback removes the same path.
+    The first run's task, completing when its lingering client leaves, removes the socket file of
+    the second run: the server reports is_serving() = true, yet new clients are refused; and when
+    the second run is stopped and has drained, its own final callback finds the file gone and the
+    task ends with an exception. *)
+Example C19_unix_overlap_loses_socket :
+  let s := run Unix [LStart; LConnect; LStop; LStart; LConnect; LLeave 0] in
+  v_listening s = true /\ v_sockfile s = false /\ v_refused (step s LConnect) = 1 /\
+  v_raised (run Unix [LStart; LConnect; LStop; LStart; LConnect; LLeave 0; LStop; LLeave 1]) = true.
+Proof. vm_compute. repeat split; reflexivity. Qed.
+
 (** ... whereas a client that vanishes with a connection *reset* takes its transport with it: the
-    same history with an abort instead of a clean disconnect lets the stop complete. *)
+    same history as in C19_stop_waits_for_waiting_session with an abort instead of a clean
+    disconnect lets the stop complete. *)
 Example C19_abort_frees_the_stop :
   let s := run TCP [LStart; LConnect; LSendWait 0; LAbort 0; LStop] in
   v_done s = true /\ v_listening s = false.
 Proof. vm_compute. split; reflexivity. Qed.
 
+Print Assumptions C19_serving_until_stop.
+Print Assumptions C19_clients_served.
+Print Assumptions C19_disconnect_is_local.
+Print Assumptions C19_stop.
+Print Assumptions C19_stop_no_overlap.
 Print Assumptions C19_stop_completes.
 Print Assumptions C19_stop_waits_for_waiting_session.
+Print Assumptions C19_stop_completes_when_pool_closed.
+Print Assumptions C19_every_run_completes.
+Print Assumptions C19_close_frees_the_stop.
+Print Assumptions C19_close_pool_releases.
+Print Assumptions C19_socket_file.
+Print Assumptions C19_example.
+Print Assumptions C19_pending_handshake_is_local.
+Print Assumptions C19_restart.
+Print Assumptions C19_restart_example.
+Print Assumptions C19_overlapping_restart.
+Print Assumptions C19_tcp_overlap_harmless.
+Print Assumptions C19_unix_overlap_loses_socket.
+Print Assumptions C19_abort_frees_the_stop.
